@@ -31,10 +31,32 @@ var tol = new(big.Rat).SetFrac(big.NewInt(1), new(big.Int).Lsh(big.NewInt(1), 33
 
 // ev is the specification's number format:
 // value = sg * (sum_t prod_f terms[t][f]) ^ (1/root), factors are rationals [n, d].
+// A factor is [n, d] or [n, d, e] = n/d * 2^e (the affine families).
 type ev struct {
-	Sg    int          `json:"sg"`
-	Root  int          `json:"root"`
-	Terms [][][2]int64 `json:"terms"`
+	Sg    int         `json:"sg"`
+	Root  int         `json:"root"`
+	Terms [][][]int64 `json:"terms"`
+}
+
+func factor(f []int64) *big.Rat {
+	r := big.NewRat(f[0], f[1])
+	if len(f) > 2 && f[2] != 0 {
+		e := f[2]
+		p := new(big.Int).Lsh(big.NewInt(1), uint(abs64(e)))
+		if e > 0 {
+			r.Mul(r, new(big.Rat).SetInt(p))
+		} else {
+			r.Quo(r, new(big.Rat).SetInt(p))
+		}
+	}
+	return r
+}
+
+func abs64(a int64) int64 {
+	if a < 0 {
+		return -a
+	}
+	return a
 }
 
 func (e ev) inner() *big.Rat {
@@ -42,7 +64,7 @@ func (e ev) inner() *big.Rat {
 	for _, t := range e.Terms {
 		p := big.NewRat(1, 1)
 		for _, f := range t {
-			p.Mul(p, big.NewRat(f[0], f[1]))
+			p.Mul(p, factor(f))
 		}
 		s.Add(s, p)
 	}
@@ -62,14 +84,31 @@ func rat(q [2]int64) *big.Rat { return big.NewRat(q[0], q[1]) }
 
 // near reports |got - want| <= tol*sc for an exact rational want.
 func near(got float64, want *big.Rat, sc int64) bool {
+	return within(got, want, new(big.Rat).Mul(tol, big.NewRat(sc, 1)))
+}
+
+// within reports |got - want| <= lim.
+func within(got float64, want, lim *big.Rat) bool {
 	if math.IsNaN(got) || math.IsInf(got, 0) {
 		return false
 	}
 	g := new(big.Rat).SetFloat64(got)
 	d := g.Sub(g, want)
 	d.Abs(d)
-	lim := new(big.Rat).Mul(tol, big.NewRat(sc, 1))
 	return d.Cmp(lim) <= 0
+}
+
+// matchesTol is matches with an explicit absolute tolerance printed by the specification.
+func (e ev) matchesTol(got float64, lim *big.Rat) bool {
+	v := e.inner()
+	if e.Root == 1 {
+		return within(got, v, lim)
+	}
+	if v.Sign() < 0 {
+		return false
+	}
+	f, _ := v.Float64()
+	return within(got, new(big.Rat).SetFloat64(float64(e.Sg)*math.Sqrt(f)), lim)
 }
 
 // matches reports whether got equals the ev within tol*sc.
@@ -116,6 +155,7 @@ type res struct {
 	A    []int64 `json:"a"`
 	Alts []ev    `json:"alts"`
 	Sc   int64   `json:"sc"`
+	Tol  *ev     `json:"tol"` // affine families: absolute tolerance stated by the specification
 }
 
 func floats(v []int64) []float64 {
@@ -166,6 +206,9 @@ func (c *checker) fail(sig, msg string) {
 // call runs f under recover; a panic on an in-domain input is a failure.
 func (c *checker) call(name string, f func()) bool {
 	o := core.Call(f)
+	if oe, ok := o.Val.(operandError); ok {
+		panic(oe) // the operand builder failed, not gonum: abort the run (exit 2)
+	}
 	if o.Panicked {
 		c.fail("stat:"+name+":panic", "in-domain call panicked: "+o.Text)
 		return false
@@ -173,10 +216,47 @@ func (c *checker) call(name string, f func()) bool {
 	return true
 }
 
+// margin records, per quantity, the largest observed |got - expected| / tolerance of the affine
+// families (reported in the evidence so that the slack of the stated tolerances is visible).
+func (c *checker) margin(name string, got float64, a ev, lim *big.Rat) {
+	if lim.Sign() == 0 {
+		return
+	}
+	v := a.inner()
+	if a.Root == 2 {
+		f, _ := v.Float64()
+		v = new(big.Rat).SetFloat64(float64(a.Sg) * math.Sqrt(f))
+	}
+	d := new(big.Rat).SetFloat64(got)
+	d.Sub(d, v)
+	d.Abs(d)
+	r, _ := d.Quo(d, lim).Float64()
+	key := "max_err_over_tol_" + name
+	if c.sum.Extra == nil {
+		c.sum.Extra = map[string]any{}
+	}
+	if old, _ := c.sum.Extra[key].(float64); r > old {
+		c.sum.Extra[key] = r
+	}
+}
+
 // value compares one float result with the expectation.
 func (c *checker) value(name, variant string, got float64, r res, ctx string) {
 	c.sum.Count("values", 1)
 	if len(r.Alts) == 0 {
+		return
+	}
+	if r.Tol != nil {
+		lim := r.Tol.inner()
+		for _, a := range r.Alts {
+			if a.matchesTol(got, lim) {
+				c.margin(name, got, a, lim)
+				return
+			}
+		}
+		lf, _ := lim.Float64()
+		c.fail("stat:"+name+":value", fmt.Sprintf("%s%v %s: got %.17g, specification says %s (tolerance %.3g)",
+			variant, r.A, ctx, got, altsString(r.Alts), lf))
 		return
 	}
 	if !anyMatch(r.Alts, got, r.Sc) {
@@ -188,6 +268,7 @@ func (c *checker) value(name, variant string, got float64, r res, ctx string) {
 // ---- family "uni" -----------------------------------------------------------
 
 type uniCase struct {
+	T      *affT   `json:"t"`
 	X      []int64 `json:"x"`
 	W      []int64 `json:"w"`
 	Nilw   bool    `json:"nilw"`
@@ -201,9 +282,12 @@ func (c *checker) uni(k *uniCase) {
 	// permutation invariant (theorem PermInvariant, checked by TLC), so the
 	// expected values printed for the sorted sample apply.
 	p := permFor(c.seed, c.line, len(k.X), 0)
-	x := permute(floats(k.X), p)
+	x := permute(k.T.apply(k.X), p)
 	w := permute(weights(k.W, k.Nilw), p)
 	ctx := fmt.Sprintf("x=%v w=%v", x, w)
+	if k.T != nil {
+		ctx = fmt.Sprintf("x=%s (small sample %v) w=%v", k.T.show(x), k.X, w)
+	}
 	undef := 0
 	for _, r := range k.Res {
 		if len(r.Alts) == 0 {
@@ -233,7 +317,7 @@ func (c *checker) uni(k *uniCase) {
 			c.call("Moment", func() { c.value("Moment", "Moment", gstat.Moment(float64(r.A[0]), x, w), r, ctx) })
 		case "MomentAbout":
 			c.call("MomentAbout", func() {
-				c.value("MomentAbout", "MomentAbout", gstat.MomentAbout(float64(r.A[0]), x, float64(r.A[1]), w), r, ctx)
+				c.value("MomentAbout", "MomentAbout", gstat.MomentAbout(float64(r.A[0]), x, k.T.apply(r.A[1:2])[0], w), r, ctx)
 			})
 		case "Skew":
 			c.call("Skew", func() { c.value("Skew", "Skew", gstat.Skew(x, w), r, ctx) })
@@ -244,6 +328,9 @@ func (c *checker) uni(k *uniCase) {
 		}
 	}
 	c.sum.Count("outside_domain_not_checked", undef)
+	if k.T != nil {
+		return
+	}
 	// Mode: any value of maximal weight is legal; the count is exact (integer weights).
 	c.call("Mode", func() {
 		v, cnt := gstat.Mode(x, w)
@@ -409,7 +496,7 @@ func replay(in *core.Lines, args []string, seed int64, sum *core.Summary) error 
 		var err error
 		nontrivial := true
 		switch head.Fam {
-		case "uni":
+		case "uni", "affuni":
 			var k uniCase
 			if err = json.Unmarshal(line, &k); err == nil {
 				c.uni(&k)
